@@ -7,7 +7,7 @@
    the two spanning leaves) and over the chain of ancestors (the walk towards the mrca). *)
 From Coq Require Import ZArith List Bool Lia.
 From DV Require Import Model.PyPrims Model.Tree Model.C07Model Model.C07GenMidPrims Gen.Midpoint
-     Proofs.C07Base Proofs.C07Ops Proofs.C07Mid.
+     Proofs.C07Base Proofs.C07Ops Proofs.C07Mid Proofs.C07GenDfr.
 Import ListNotations.
 Open Scope Z_scope.
 
@@ -77,9 +77,9 @@ Definition mirror_mid (fresh : Z) (self : gstate) (upd supp coll : bool) (pdm : 
            (st : list node * Z) : res gstate :=
   let '(sp, found) := st in
   do i0 <- list_get sp 0;;
-  do d0 <- node_dfr i0;;
+  do d0 <- gen_distance_from_root i0;;      (* the GENERATED Node.distance_from_root, = dfr by Proofs/C07GenDfr.v *)
   do i1 <- list_get sp 1;;
-  do d1 <- node_dfr i1;;
+  do d1 <- gen_distance_from_root i1;;
   do c <- py_lt (Some d0) (Some d1);;
   do (n1, n2) <- (if c then (do x <- list_get sp 1;; do y <- list_get sp 0;; Ok (x, y))
                   else (do x <- list_get sp 0;; do y <- list_get sp 1;; Ok (x, y)));;
@@ -491,7 +491,7 @@ Proof.
     unfold mirror_mid.
     change (list_get [Some p0; Some p1] 0) with (@Ok node (Some p0)).
     change (list_get [Some p0; Some p1] 1) with (@Ok node (Some p1)).
-    cbn [bind node_dfr].
+    cbn [bind]. rewrite (gen_dfr_eq_model p0 N0), (gen_dfr_eq_model p1 N1).
     destruct (dfr (map node_pair p0)) as [d0|e|]; cbn [bind lift]; [|reflexivity..].
     destruct (dfr (map node_pair p1)) as [d1|e|]; cbn [bind lift]; [|reflexivity..].
     cbn [py_lt bind]. rewrite HP. unfold pdm_patristic, py_half. cbn [fst]. rewrite EM.
